@@ -4,7 +4,7 @@ import asyncio
 import contextlib
 import datetime
 import logging
-from collections.abc import Awaitable, Iterable, Mapping, Sequence
+from collections.abc import Awaitable, Callable, Iterable, Mapping, Sequence
 from enum import Enum, auto
 from typing import Any, Optional
 
@@ -115,7 +115,7 @@ class At5Zone(pyairtouch.api.Zone):
         self._zone_status = zone_status
 
         if old_status != zone_status:
-            await _notify_subscribers([s(self.zone_id) for s in self._subscribers])
+            await _notify_subscribers([_call(s, self.zone_id) for s in self._subscribers])
 
     @override
     @property
@@ -436,7 +436,7 @@ class At5AirConditioner(pyairtouch.api.AirConditioner):
 
             await _notify_subscribers(
                 [
-                    s(self.ac_id)
+                    _call(s, self.ac_id)
                     for s in self._subscribers.union(self._subscribers_ac_state)
                 ]
             )
@@ -454,7 +454,7 @@ class At5AirConditioner(pyairtouch.api.AirConditioner):
         if old_status != ac_timer_status:
             await _notify_subscribers(
                 [
-                    s(self.ac_id)
+                    _call(s, self.ac_id)
                     for s in self._subscribers.union(self._subscribers_ac_state)
                 ]
             )
@@ -467,7 +467,7 @@ class At5AirConditioner(pyairtouch.api.AirConditioner):
         if old_error_info != error_info:
             await _notify_subscribers(
                 [
-                    s(self.ac_id)
+                    _call(s, self.ac_id)
                     for s in self._subscribers.union(self._subscribers_ac_state)
                 ]
             )
@@ -710,7 +710,7 @@ class At5AirConditioner(pyairtouch.api.AirConditioner):
 
     async def _zone_updated(self, _: int) -> None:
         # Notify the interested subscribers when a Zone has been updated
-        await _notify_subscribers([s(self.ac_id) for s in self._subscribers])
+        await _notify_subscribers([_call(s, self.ac_id) for s in self._subscribers])
 
     async def _send_ac_control_message(
         self,
@@ -1187,7 +1187,14 @@ class AirTouch5(pyairtouch.api.AirTouch):
         old_version = self._console_version
         self._console_version = console_version
         if old_version != console_version:
-            await _notify_subscribers([s(self._airtouch_id) for s in self._subscribers])
+            await _notify_subscribers([_call(s, self._airtouch_id) for s in self._subscribers])
+
+
+async def _call(subscriber: Callable[[Any], Awaitable[Any]], arg: Any) -> Any:
+    # Calling the subscriber inside a coroutine ensures that a subscriber which
+    # fails before returning its awaitable cannot stop the others from being
+    # notified: the exception surfaces in _notify_subscribers like any other.
+    return await subscriber(arg)
 
 
 async def _notify_subscribers(callbacks: Iterable[Awaitable[Any]]) -> None:
